@@ -38,3 +38,12 @@ Proof.
   split; [vm_compute; reflexivity|]. split; [intros g H; discriminate|]. vm_compute. reflexivity.
 Qed.
 Print Assumptions C07_gorilla_error_refuted.
+
+(* C07-wal-header-only-tail: a record cut exactly after its 5-byte header is NOT recognised as incomplete by today's
+   reader when the pooled buffer still holds a decodable payload of that length: the earlier record is delivered again *)
+Theorem C07_wal_header_only_tail_refuted : exists typ p stale,
+  frame_applicable no_c typ p = true /\
+  frame_dec no_d (firstn 5 (frame_enc no_c typ p)) = None /\                       (* repaired reader: incomplete *)
+  frame_dec_current no_d stale (firstn 5 (frame_enc no_c typ p)) = Some (typ, stale, []).   (* today: fabricated *)
+Proof. exists 1, [7; 8; 9], [1; 2; 3]. vm_compute. repeat split. Qed.
+Print Assumptions C07_wal_header_only_tail_refuted.
